@@ -269,7 +269,8 @@ def finish(ctx, level_if_proved='proof', checker_cmd='', replayers=None):
     # ---- evidence ------------------------------------------------------
     # known-finding obligations are expected refutations inside a listed
     # witness class: they are neither counted as obligations nor discharged
-    n_known_ded = sum(1 for k, f in known_hits if f.source in ('deductive', 'exhaustive'))
+    n_known_ded = (sum(1 for k, f in known_hits if f.source == 'deductive')
+                   + len(set(f.name for k, f in known_hits if f.source == 'exhaustive')))
     obligations = ctx.obligations - n_known_ded
     discharged = ctx.discharged
     all_discharged = (obligations > 0 and not ctx.undecided and not violations
